@@ -1,6 +1,5 @@
 """C05 — filtered reads never lose a qualifying row (row-group pruning is sound). DESIGN.md section 6, C05."""
 import json
-import multiprocessing as mp
 import os
 import shutil
 import sys
@@ -269,22 +268,26 @@ def run(ctx):
         ch = chunks_of(spec)
         progs = [FL.gen_program(rng, spec, ch) for _ in range(n_prog)]
         jobs.append((spec, progs, True))
-    # confirmation stream: categorical column whose statistics are in category order (C04's defect seen through C05)
-    nconf = 6 if quick else 30
+    # categorical data columns with statistics (their bounds were in category order before C04's fix 24c37c3)
+    nconf = 10 if quick else 60
     for _ in range(nconf):
         spec = FL.gen_dataset(rng, kinds=["int"], allow_parts=False, cat=True)
         spec["stats"] = True
         ch = chunks_of(spec)
-        progs = [FL.gen_program(rng, spec, ch, cols=["c"], wrong_type=0) for _ in range(12)]
-        jobs.append((spec, progs, False))
-    with mp.get_context("fork").Pool(min(8, os.cpu_count() or 4), initializer=_init) as pool:
-        results = pool.map(run_dataset, jobs, chunksize=2)
+        progs = [FL.gen_program(rng, spec, ch, cols=["c", "c", "i"], wrong_type=0) for _ in range(12)]
+        jobs.append((spec, progs, True))
+    results = C.pmap(run_dataset, jobs, init=_init, nproc=min(8, os.cpu_count() or 4), job_timeout=300)
 
     # -------- oracle + collect model expressions
     mexprs, mmeta = [], []
     for ji, ((spec, progs, want_model), res) in enumerate(zip(jobs, results)):
         ctx.count("dataset.scheme", spec["scheme"] + ("+parts" if spec["partition_on"] else ""))
         ctx.count("dataset.stats", "all" if spec["stats"] is True else ("none" if spec["stats"] is False else "some"))
+        if "__crashed__" in res:
+            # the interpreter died or hung while filtering: never an allowed outcome
+            ctx.fail({"component": "row-group-pruning", "outcome": "crashed", "scheme": spec["scheme"]},
+                     {"spec": spec, "progs": progs}, "filtered reads of this dataset did not complete: " + res["__crashed__"])
+            continue
         if res["error"]:
             ctx.count("dataset.write_or_full_read_raised", res["error"][:60])
             ctx.case({"spec": spec, "error": res["error"]}, trivial=True)
